@@ -284,11 +284,12 @@ def fstring_middle_pattern(quote: str, raw: bool) -> str:
     q = quote[0]
     units = [rf"[^{q}\\{{}}]", r"\\[^{}]", r"\\(?=[{}])", r"\{\{", r"\}\}"]
     if not raw:
-        units.insert(1, rf"\\N\{{[^{{}}{q}]*\}}")
+        # the units must stay mutually exclusive, or backtracking would re-read \N{...} as '\N' plus a field
+        units[1:2] = [rf"\\N\{{[^{{}}{q}]*\}}", r"\\(?!N\{)[^{}]"]
     if len(quote) == 3:
         units.append(f"{q}(?!{q}{q})")
     literal = "(?:" + "|".join(units) + ")*"
-    return choice(LBrace=literal + r"\{(?!\{)", End=literal + quote, BadRBrace=literal + r"\}")
+    return choice(LBrace=literal + r"\{(?!\{)", End=literal + quote, BadRBrace=literal + r"\}(?!\})")
 
 
 @functools.lru_cache
@@ -417,7 +418,6 @@ class EndProg:
     contline: str = ""  # str
     start: tuple[int, int] = (0, 0)
     quote: str = ""
-    had_field: bool = False  # a format spec that already holds a nested replacement field
 
     def join(self, state: TokenizerState, end: int) -> None:
         self.text += state.line[state.pos : end]
@@ -583,12 +583,10 @@ def handle_fstring_progs(state: TokenizerState, endprog: EndProg) -> Iterator[To
         raise TokenError("f-string: single '}' is not allowed", (state.lnum, end - 1))
     else:  # "{" or "}"
         middle_end = end - 1
-        closes_spec = endmatch.lastgroup == "RBrace"
-        # like CPython, a format spec that holds a nested field always ends in a (possibly empty) literal part
-        if (middle_end > state.pos) or (endprog.text) or (closes_spec and endprog.had_field):  # has buffer
+        # like CPython, a format spec always ends in a literal part, even an empty one ('{a:}', '{a:{w}}')
+        if (middle_end > state.pos) or (endprog.text) or endmatch.lastgroup == "RBrace":  # has buffer
             yield state.prog_token(middle_end, Token.FSTRING_MIDDLE)
         if endmatch.lastgroup == "LBrace":
-            endprog.had_field = state.in_colon()
             yield TokenInfo(
                 Token.OP,
                 "{",
